@@ -801,6 +801,10 @@ func (t *sourceTracer) TransitionEnd(tx *am.Transition) {
 	qTick := srcMach.QueueTick()
 	machTick := srcMach.MachineTick()
 	mTime := srcMach.Time(nil)
+	// the source got disposed during the transition, nothing to sync
+	if mTime == nil {
+		return
+	}
 	trackedTSum := mTime.Filter(t.trackedStateIdxs).Sum(nil)
 
 	// filter the time slice
